@@ -131,12 +131,16 @@ func (ff *FuncFacts) proveSplit(fs FactSet, b *ssa.BasicBlock, g *Affine, depth 
 	}
 	// min(a,b,…) in the goal: m equals one of its arguments and is ≤ each of them.
 	for term, co := range g.Co {
-		if len(term) < 5 || term[:4] != "min(" {
+		if len(term) < 5 || (term[:4] != "min(" && term[:4] != "max(") {
 			continue
 		}
 		call := ff.builtinByTerm(term)
 		if call == nil {
 			continue
+		}
+		sign := co
+		if term[:4] == "max(" {
+			sign = -co // max(a,b) = −min(−a,−b): the roles of "all" and "any" swap
 		}
 		okAll, okAny := true, false
 		for _, a := range call.Call.Args {
@@ -149,7 +153,7 @@ func (ff *FuncFacts) proveSplit(fs FactSet, b *ssa.BasicBlock, g *Affine, depth 
 				okAll = false
 			}
 		}
-		if (co > 0 && okAll) || (co < 0 && okAny) {
+		if (sign > 0 && okAll) || (sign < 0 && okAny) {
 			return true
 		}
 	}
